@@ -71,6 +71,9 @@ def gen_cases(tier, seed):
     n = 16 if tier == "quick" else 220
     for i in range(n):
         yield {"kind": "instance", "op": OPS[i % len(OPS)], "seed": r.randrange(1 << 30), "death": "all"}
+    # long recordings: the transaction spills pages into the file before the commit; only process death, at the late statements
+    for op, size in ([("iso_insert_auto", 150000)] if tier == "quick" else [("iso_insert_auto", 150000), ("iso_insert_plain", 200000), ("iso_delete", 150000), ("iso_insert_auto", 400000)]):
+        yield {"kind": "instance", "op": op, "seed": r.randrange(1 << 30), "death": "late", "raised": False, "big": size}
 
 
 def run_case(case, ctx):
@@ -92,6 +95,10 @@ def make_instance(case):
         # prior content only uses the first two materials / adsorbates: the third is reserved for the operation under test
         s["material"] = r.choice(c08.MAT_NAMES[:2])
         s["adsorbate"] = r.choice(c08.ADS_NAMES[:2])
+    if case.get("big"):
+        isos[3] = dict(isos[3], kind="point", big=case["big"])
+        for k in ("pressure", "loading", "branch", "extra", "model", "params", "prange", "lrange", "rmse"):
+            isos[3].pop(k, None)
     prelude = []
     # prior content: some adsorbates, materials and isotherms
     for a in ads[:r.randint(0, 2)]:
@@ -277,7 +284,7 @@ def _run_instance(case, ctx):
             return state
 
         # ---- raised faults: every statement position x 3 kinds, in this process
-        for k in range(1, n_steps + 1):
+        for k in (range(1, n_steps + 1) if case.get("raised", True) else ()):
             for kind in RAISE_KINDS:
                 shutil.copyfile(pre_db, work)
                 reg = _registry_mark()
@@ -323,6 +330,8 @@ def _run_instance(case, ctx):
         # ---- process death: before / after every statement, around the commit (child processes)
         if case["death"] == "all":
             positions = list(range(1, n_steps + 1))
+        elif case["death"] == "late":
+            positions = sorted({max(1, n_steps - 2), max(1, n_steps - 1), n_steps})
         else:
             positions = sorted({1, max(1, n_steps // 2), n_steps})
         death = [("exit_before", k) for k in positions] + [("exit_after", k) for k in positions] + [("exit_before_commit", "commit"), ("exit_after_commit", "commit")]
@@ -344,7 +353,7 @@ def _run_instance(case, ctx):
                     ctx.violation("%s/%s/repeat-refused" % (target["fn"], kind), "after the process death the same operation cannot be repeated successfully", where="%s@%s" % (kind, k), output=tail2[-300:])
                 elif after != full:
                     ctx.violation("%s/%s/repeat-incomplete" % (target["fn"], kind), "the repeated operation does not yield the full effect", where="%s@%s" % (kind, k), diff=dbtools.diff_dump(full, after))
-        ctx.count("instances", "%s/%s" % (case["op"], "all-positions-x-all-kinds" if case["death"] == "all" else "all-positions-x-raised-kinds+death-at-ends"))
+        ctx.count("instances", "%s/%s" % (case["op"], "all-positions-x-all-kinds" if case["death"] == "all" else ("long-recording-%d-points/death-at-late-statements" % case["big"]) if case.get("big") else "all-positions-x-raised-kinds+death-at-ends"))
         if ctx.extra.get("sampled") is None and runs:
             ctx.extra["sampled"] = 1
             ctx.sample({"operation": target["fn"], "instance": case["op"], "statements": [t for t in trace][:24], "faulted_executions": runs})
